@@ -110,4 +110,4 @@ MANIFEST = dict(engine='grid', level='exploration',
        'that is off by 2s or more, at least one peer, and never a silent one; the verdict over several peers must be the combination of the verdicts for each peer alone (silent peers change nothing) '
        'and list exactly the peers refused alone; with the safeguard disabled the result is always nil.',
   note='Refusals of peers that are in fact within 2s are allowed and only counted (the bound of the code, |Result-Start| + round trip, is more conservative than what the measurement proves). '
-       'Acceptance of the trivially synchronous case is a non-vacuity counter. The network collection is covered by a second tier: SynchronizedWithNetwork / SynchronizedWithMasterAndNetwork against real HTTPS peers on the loopback interface, all tuples of 1-3 peers over {in sync, 1h ahead, 1h behind, silent} x flag; only "joins although an answering peer is one hour off" and "refuses although disabled" are oracles there.')
+       'Acceptance of the trivially synchronous case is a non-vacuity counter. The network collection is covered by a second tier: SynchronizedWithNetwork / SynchronizedWithMasterAndNetwork against real HTTPS peers on the loopback interface, all tuples of 1-3 peers over {in sync, 1h ahead, 1h behind, silent} x flag; only "joins although an answering peer is one hour off" and "refuses although disabled" are oracles there. Peer side: CurrentTime of the real status handler must lie inside its request; collection tier with peers in every raft state and a slow answering peer.')
